@@ -17,6 +17,7 @@ import (
 	"fmt"
 	"sort"
 	"strings"
+	"time"
 
 	"github.com/gocql/gocql"
 )
@@ -111,6 +112,53 @@ func (e *evWorld) routed() string {
 	return objsOr("vanished:", ids)
 }
 
+func (e *evWorld) schemaStr() string {
+	var ks []int
+	for _, k := range gocql.VerifSchemaCached(e.sess.S) {
+		ks = append(ks, atoi(strings.TrimPrefix(k, "ks")))
+	}
+	sort.Ints(ks)
+	if e.tokenAw {
+		return "cache=" + joinInts(ks) + " " + e.tmeta()
+	}
+	return "cache=" + joinInts(ks) + " -"
+}
+
+// schemaOps: schema-cache fills and batches of SCHEMA_CHANGE events through the real handleSchemaEvent; keyspace-level
+// events need the control connection (schema agreement), so the dial-free scenarios get the other kinds only
+func (g *evGen) schemaOps(withControl bool) {
+	if g.dead {
+		return
+	}
+	r := g.r
+	switch x := r.Intn(100); {
+	case x < 10:
+		g.emit(fmt.Sprintf("evscache %d", 1+r.Intn(4)), "evscache", true)
+	case x < 22:
+		kinds := "tyfa"
+		if withControl {
+			kinds = "kkktyfa"
+		}
+		var l []string
+		cls := map[string]bool{}
+		for n := 1 + r.Intn(3); n > 0; n-- {
+			k := kinds[r.Intn(len(kinds))]
+			l = append(l, fmt.Sprintf("%c%d", k, 1+r.Intn(4)))
+			if k == 'k' {
+				cls["keyspace"] = true
+			} else {
+				cls["table/type/function/aggregate"] = true
+			}
+		}
+		var c []string
+		for k := range cls {
+			c = append(c, k)
+		}
+		sort.Strings(c)
+		g.emit("evschema "+strings.Join(l, ","), "evschema/"+strings.Join(c, "+"), true)
+	}
+}
+
 func tokenMetaExec(e *evWorld, f []string) (string, bool) {
 	switch f[0] {
 	case "evpart":
@@ -124,6 +172,33 @@ func tokenMetaExec(e *evWorld, f []string) (string, bool) {
 		return e.tmeta(), true
 	case "evtmeta":
 		return e.tmeta(), true
+	case "evscache":
+		if len(f) != 2 {
+			return "bad-op", true
+		}
+		gocql.VerifSchemaCachePut(e.sess.S, "ks"+f[1])
+		return e.schemaStr(), true
+	case "evschema":
+		if len(f) != 2 {
+			return "bad-op", true
+		}
+		var evs []gocql.VerifSchemaEvent
+		if f[1] != "-" {
+			for _, w := range strings.Split(f[1], ",") {
+				if len(w) < 2 {
+					continue
+				}
+				kind, ok := map[byte]string{'k': "keyspace", 't': "table", 'y': "type", 'f': "function", 'a': "aggregate"}[w[0]]
+				if !ok {
+					continue
+				}
+				evs = append(evs, gocql.VerifSchemaEvent{Kind: kind, Change: "UPDATED", Keyspace: "ks" + w[1:]})
+			}
+		}
+		// a keyspace event waits for schema agreement on the control connection first (bounded: rows the scripted node
+		// serves may be unusable)
+		gocql.VerifHandleSchemaEvent(e.sess.S, evs, 300*time.Millisecond)
+		return e.schemaStr(), true
 	case "evrouted":
 		return e.routed(), true
 	}
